@@ -183,6 +183,9 @@ def run_concrete(ob, case, inputs):
         ob.fn(c)
     except Failure as e:
         return {'outcome': 'assumption', 'failures': [], 'exception': None, 'asked': c.asked}
+    except ImportError as e:
+        # the harness (not the code under test) could not be loaded in this interpreter: never a failure of the code
+        return {'outcome': 'error', 'failures': [], 'exception': None, 'stderr': 'harness import error: %s' % e, 'asked': c.asked}
     except BaseException as e:
         exc = '%s: %s' % (type(e).__name__, e)
     if exc is not None or c.failures:
